@@ -30,6 +30,13 @@ func init() {
 }
 
 func pluginRun(plugin string, req *pluginpb.CodeGeneratorRequest) (*pluginpb.CodeGeneratorResponse, string, error) {
+	return pluginRunEnv(plugin, req, 0)
+}
+
+// pluginRunEnv: variant 0 = the engine's own environment; other variants run the plugin in a different
+// working directory with a different, minimal environment (time zone, HOME, USER, LANG, TMPDIR, PATH):
+// the response must not depend on any of it (C13: hermetic).
+func pluginRunEnv(plugin string, req *pluginpb.CodeGeneratorRequest, variant int) (*pluginpb.CodeGeneratorResponse, string, error) {
 	in, err := proto.Marshal(req)
 	if err != nil {
 		return nil, "", err
@@ -37,6 +44,18 @@ func pluginRun(plugin string, req *pluginpb.CodeGeneratorRequest) (*pluginpb.Cod
 	cmd := exec.Command(plugin)
 	cmd.Stdin = bytes.NewReader(in)
 	cmd.Env = append(os.Environ(), "TZ=UTC")
+	switch variant % 4 {
+	case 1:
+		cmd.Dir = "/"
+		cmd.Env = []string{"TZ=Pacific/Kiritimati", "HOME=/nonexistent", "USER=verif-other-user", "LANG=tr_TR.UTF-8", "PATH=/usr/bin", "SOURCE_DATE_EPOCH=86400"}
+	case 2:
+		cmd.Dir = os.TempDir()
+		cmd.Env = []string{"TZ=America/St_Johns", "HOME=" + os.TempDir(), "LC_ALL=C", "GOFLAGS=-mod=vendor", "GODEBUG=randautoseed=0", "PWD=/proc"}
+	case 3:
+		cmd.Dir = filepath.Dir(plugin)
+		cmd.Env = nil // inherits
+		cmd.Env = append(os.Environ(), "TZ=Asia/Kathmandu", "PROTOC_GEN_GO_PULSAR_DEBUG=1", "HOSTNAME=some-other-host")
+	}
 	var ob, eb bytes.Buffer
 	cmd.Stdout, cmd.Stderr = &ob, &eb
 	if err := cmd.Run(); err != nil {
@@ -119,7 +138,7 @@ func runGen(cfg *Cfg) {
 			nruns = runs * 3 // several imports: order-of-iteration effects are probabilistic per run
 		}
 		for k := 0; k < nruns; k++ {
-			resp, _, err := pluginRun(plugin, req)
+			resp, _, err := pluginRunEnv(plugin, req, k)
 			out.Case(fmt.Sprintf("rerun:%s:%d", rep.ID, k), true)
 			if err != nil || resp.Error != nil {
 				out.Violate("C13", "rerun-fails", fmt.Sprintf("repeat run failed: %v %v", err, resp.GetError()), "request "+rep.ReqPath)
